@@ -121,6 +121,13 @@ class GenerateWasmVisitor(Visitor.DefaultVisitor):
         def Code(self):
             return self.__code
 
+        @property
+        def ResultTypes(self):
+            return self.__resultTypes
+
+        def SetResultTypes(self, resultTypes):
+            self.__resultTypes = resultTypes
+
         def OnEnterFunction(self, functionName: str):
             self.__code = WebAssembly.Code()
 
@@ -232,6 +239,12 @@ class GenerateWasmVisitor(Visitor.DefaultVisitor):
         )
 
     def v_ReturnInstruction(self, ri: LinearIR.ReturnInstruction, ctx: Context):
+        expected = [_ConvertType(ri.Value.Type)] if ri.Value else []
+        if expected != ctx.ResultTypes:
+            raise RuntimeError(
+                "Unsupported for WebAssembly: returned value does not have "
+                "the function's return type"
+            )
         if ri.Value:
             self.__PushValueOntoStack(ri.Value, ctx)
 
@@ -248,6 +261,7 @@ class GenerateWasmVisitor(Visitor.DefaultVisitor):
             cast(LinearIR.FunctionType, function.Type)
         )
         ctx.Module.AddFunction(ctx.Module.AddFunctionType(functionType))
+        ctx.SetResultTypes(functionType.Results)
 
         # Check if function is exported - for now assume yes
 
